@@ -529,4 +529,91 @@ def floatOps : NumOps UInt64 where
   eq a b :=
     !Ieee.isNaNBits a && !Ieee.isNaNBits b && (a == b || (Ieee.isZeroBits a && Ieee.isZeroBits b))
 
+/-! ## nodes/expressions/mod.rs `impl From<f64> for Expression` -/
+
+/-- the little expression trees `Expression::from(f64)` builds -/
+inductive NumExpr (F : Type) where
+  | lit (n : NumLit F)
+  /-- `UnaryExpression::new(UnaryOperator::Minus, e)` -/
+  | neg (e : NumExpr F)
+  /-- `BinaryExpression::new(BinaryOperator::Slash, a, b)` -/
+  | div (a b : NumExpr F)
+
+/-- The `f64` operations `From<f64>` relies on. `log10Floor x` is `x.log10().floor()` (an
+integer-valued float of magnitude < 400, hence an `Int` here; `exponent -= 1.0`, `exponent > 2.0`
+and `exponent as i64` are exact on it), `powf10 e` is `10_f64.powf(e)`. -/
+structure FromOps (F : Type) where
+  isNaN : F → Bool
+  isInf : F → Bool
+  isZero : F → Bool
+  /-- `!is_sign_positive()` -/
+  signNeg : F → Bool
+  posZero : F
+  negZero : F
+  one : F
+  /-- `value < 0.0` -/
+  ltZero : F → Bool
+  abs : F → F
+  /-- `value < 0.1` -/
+  ltTenth : F → Bool
+  /-- `value > 999.0` -/
+  gt999 : F → Bool
+  /-- `(value / 100.0).fract() == 0.0` -/
+  div100FractZero : F → Bool
+  log10Floor : F → Int
+  powf10 : Int → F
+  /-- `power / 10.0` -/
+  div10 : F → F
+  /-- `(value / power).fract() != 0.0` -/
+  divFractNonZero : F → F → Bool
+
+/-- the `while exponent > 2.0 && (value / power).fract() != 0.0` loop (`fuel` bounds the
+iterations; the exponent starts below 400 and decreases by one per iteration) -/
+def shrinkExponent {F : Type} (ops : FromOps F) (value : F) : Nat → Int → F → Int
+  | 0, exponent, _ => exponent
+  | fuel + 1, exponent, power =>
+    if exponent > 2 && ops.divFractNonZero value power then
+      shrinkExponent ops value fuel (exponent - 1) (ops.div10 power)
+    else exponent
+
+/-- the `Subnormal | Normal` arm for a non-negative value -/
+def fromPositive {F : Type} (ops : FromOps F) (value : F) : NumLit F :=
+  if ops.ltTenth value then .decimal value (some (ops.log10Floor value, true))
+  else if ops.gt999 value && ops.div100FractZero value then
+    let exponent := ops.log10Floor value
+    .decimal value (some (shrinkExponent ops value 400 exponent (ops.powf10 exponent), true))
+  else .decimal value none
+
+/-- `impl From<f64> for Expression`. -/
+def fromF64 {F : Type} (ops : FromOps F) (value : F) : NumExpr F :=
+  if ops.isNaN value then
+    .div (.lit (.decimal ops.posZero none)) (.lit (.decimal ops.posZero none))
+  else if ops.isInf value then
+    -- `Expression::from(±1.0)`: `1.0` is a plain decimal, `-1.0` its negation
+    .div (if ops.signNeg value then .neg (.lit (.decimal ops.one none)) else .lit (.decimal ops.one none))
+      (.lit (.decimal ops.posZero none))
+  else if ops.isZero value then
+    .lit (.decimal (if ops.signNeg value then ops.negZero else ops.posZero) none)
+  else if ops.ltZero value then .neg (.lit (fromPositive ops (ops.abs value)))
+  else .lit (fromPositive ops value)
+
+/-- executable instance on bit patterns (libm `log10`, `pow` through Lean's `Float`) -/
+def floatFromOps : FromOps UInt64 where
+  isNaN := Ieee.isNaNBits
+  isInf := Ieee.isInfBits
+  isZero := Ieee.isZeroBits
+  signNeg := Ieee.signBit
+  posZero := 0
+  negZero := 0x8000000000000000
+  one := 0x3ff0000000000000
+  ltZero b := Float.ofBits b < 0.0
+  abs b := UInt64.ofNat (b.toNat % 2 ^ 63)
+  ltTenth b := Float.ofBits b < Float.ofBits 0x3fb999999999999a
+  gt999 b := Float.ofBits b > 999.0
+  div100FractZero b := floatOps.fractIsZero (Float.ofBits b / 100.0).toBits
+  log10Floor b := (Float.ofBits b).log10.floor.toInt64.toInt
+  powf10 e := ((10.0 : Float).pow (Float.ofInt e)).toBits
+  div10 b := (Float.ofBits b / 10.0).toBits
+  divFractNonZero v p := !floatOps.fractIsZero (Float.ofBits v / Float.ofBits p).toBits
+
 end DarkluaModel.C13
